@@ -90,7 +90,9 @@ func NewMarchingCanvas(cubesPerUnit float64) *MarchingCanvas {
 	}
 }
 
-func (d MarchingCanvas) index(x, y, z int) int {
+// index has a pointer receiver on purpose: a value receiver copies the whole
+// canvas (including the block lists other workers may be growing) on every call.
+func (d *MarchingCanvas) index(x, y, z int) int {
 	return (z * marchingSectionSizeSquared) + (y * marchingSectionSize) + x
 }
 
